@@ -8,7 +8,6 @@ package genesis
 // what the first n allocations give to address a / in total (mathematical sums)
 //@ spec rec func allocSum(al []*CustomAllocation, n int, a bytes) int = ite(n <= 0, 0, allocSum(al, n - 1, a) + ite(str(al[n - 1].Address) == a, al[n - 1].Balance, 0))
 //@ spec rec func allocTotal(al []*CustomAllocation, n int) int = ite(n <= 0, 0, allocTotal(al, n - 1) + al[n - 1].Balance)
-//@ lemma allocTotal_nonneg props C27 reveal allocTotal induct n: forall n int, al []*CustomAllocation :: allocTotal(al, n) >= 0
 
 // Genesis allocation (C27): on success every address holds its previous balance plus the sum of the
 // allocations naming it (duplicates summed), nothing but balance records is written, and a list whose
@@ -16,7 +15,7 @@ package genesis
 //@ func (*DefaultGenesis).InitializeState props C27
 //@   requires forall j int :: 0 <= j && j < len(g.CustomAllocation) ==> !isnil(g.CustomAllocation[j])
 //@   requires forall a string :: has(gmap("vis", mu), chain.balKey(balanceHandler, a)) ==> len(gmap("vis", mu)[chain.balKey(balanceHandler, a)]) == 8
-//@   uses balKey_injective allocTotal_nonneg
+//@   uses balKey_injective
 //@   reveal allocSum allocTotal
 //@   loop 1 invariant 0 <= idx1 && idx1 <= len(g.CustomAllocation) && supply == allocTotal(g.CustomAllocation, idx1)
 //@   loop 1 invariant forall a string :: has(gmap("vis", mu), chain.balKey(balanceHandler, a)) ==> len(gmap("vis", mu)[chain.balKey(balanceHandler, a)]) == 8
